@@ -6,6 +6,8 @@ Emits (no imports needed; Props/C11Curves.lean turns the tuples into `Paranoid.E
   def ecCurveTable   : List (Nat × String)         -- CurveType id -> curve name
   def ecCurveNone    : List (Nat × String)         -- CurveType ids (with enum name) mapped to None
   def ecCurveUnmapped: List (Nat × String)         -- CurveType values absent from CURVE_FACTORY
+  def ecCurveFactory : List (Nat × Option (Int × Int × Nat × Int × Int × Nat × Nat))
+                                                   -- CURVE_FACTORY.items() in dict order, None entries included
 """
 import re
 
@@ -53,6 +55,9 @@ def sec_curves():
              ', '.join('(%d, "%s")' % t for t in none))
   out.append('def ecCurveUnmapped : List (Nat × String) := [%s]' %
              ', '.join('(%d, "%s")' % t for t in sorted(unmapped)))
+  out.append('def ecCurveFactory : List (Nat × Option (Int × Int × Nat × Int × Int × Nat × Nat)) := [%s]' %
+             ',\n  '.join('(%d, none)' % cid if c is None else '(%d, some ecCurve_%s)' % (cid, lean_name(c.name))
+                          for cid, _, c in ents))
   return '\n'.join(out) + '\n'
 
 
